@@ -287,6 +287,16 @@ pub const TEMPLATES: &[Template] = &[
     ..T0
   },
   Template {
+    name: "log-in-block-with-args",
+    langs: JS,
+    severity: "info",
+    message: "console.log($A) inside a block",
+    rule: "  pattern: console.log($A)\n  inside:\n    kind: statement_block\n    stopBy: end\n  has:\n    kind: arguments\n  follows:\n    kind: expression_statement\n    stopBy: end\n",
+    valid: &["console.log(1)"],
+    invalid: &["function f() {\n  foo(1, 2);\n  console.log(x);\n}", "if (a) {\n  bar(1);\n  baz(2);\n  console.log(a);\n}"],
+    ..T0
+  },
+  Template {
     name: "foo-same-args",
     langs: JS,
     severity: "error",
